@@ -349,6 +349,9 @@ def run(ctx, tier):
     results += sorted_registry(ctx)
     results += deregister_only_own(ctx)
     results += private_map(ctx)
+    import c10
+    results += c10.release_per_entry(ctx, rule='C03.release-per-entry')
+    results += c10.blocking_registry(ctx, rule='C03.blocking-registry')
     results += c02.cow_free_set(ctx, rule='C03.cow.free-set')
     results += c02.pending_key(ctx, rule='C03.pending-key')
     return dict(
